@@ -32,6 +32,33 @@ def confirm_inputs(C, c):
     return True, 'compiles', schema, query
 
 
+HISTORY_PAIRS = [
+    # (earlier schema in the same process, later schema): the same input type name, recursive only in the later one
+    ('input X { y: Int }\ntype Query { f(a: X): Int }\n', 'input X { me: X y: Int }\ntype Query { f(a: X): Int }\n'),
+    ('input X { l: [X!] }\ninput Y { x: X }\ntype Query { f(a: X, b: Y): Int }\n', 'input X { y: Y }\ninput Y { x: X! }\ntype Query { f(a: X, b: Y): Int }\n'),
+]
+HISTORY_QUERY = 'query Q($a: X) { f(a: $a) }\n'
+
+
+def history_independence(rt):
+    """native, sampled: the Box decision for a schema must not depend on schemas generated earlier in the same process
+    (a derive macro expands every `#[derive(GraphQLQuery)]` of a crate in one process).  Returns [(key, description, payload)]"""
+    bad = []
+    for k, (first, second) in enumerate(HISTORY_PAIRS):
+        alone = rt.gen_seq([(second, HISTORY_QUERY)])[0]
+        after = rt.gen_seq([(first, HISTORY_QUERY), (second, HISTORY_QUERY)])[1]
+        if alone[0] != 'ok' or after[0] != 'ok':
+            if alone[0] != after[0]:
+                bad.append((f'history:{k}', f'generation of schema B {after[0]} after schema A but {alone[0]} alone', dict(kind='history', first=first, second=second)))
+            continue
+        n_alone, n_after = alone[1].count('Box <'), after[1].count('Box <')
+        if n_after < n_alone:
+            bad.append(('history:box-lost-after-other-schema', f'schema `{second.splitlines()[0]} ...` gets {n_alone} boxed members when generated alone but {n_after} when a schema with an '
+                        f'equally named, non-recursive input type (`{first.splitlines()[0]}`) was generated earlier in the same process: the cyclic type has infinite size',
+                        dict(kind='history', first=first, second=second)))
+    return bad
+
+
 def boxed_fields(rt_text, name):
     import native
     mod = native.find_mod(native.parse_generated(rt_text))
@@ -86,6 +113,12 @@ def main():
     else:
         if any(c['kernel'] == 'fragment_is_recursive' and c['got'] == 'False' for c in cands):
             out.inconc('fragment recursion counterexamples did not reproduce natively')
+    import native
+    rt = native.ReplayTool(sc)
+    hist = history_independence(rt)
+    replayed += 2 * len(HISTORY_PAIRS)
+    for key, desc, payload in hist:
+        out.violation(key, desc, payload)
     for w in R.inconclusive:
         out.inconc(w)
     cross = R.cross_check(limit=4 if tier == 'quick' else 20)
@@ -93,7 +126,7 @@ def main():
         states=R.paths, transitions=R.vm.queries, traces_validated_against_impl=replayed, samples=R.samples[:10],
         obligations=R.obligations, discharged=R.discharged,
         bounds=dict(input_graphs=graphs, fragment_graphs=frs, note='(types, fields per type, qualifiers per field) / (fragments, selections per fragment, one nested level)'),
-        outside_bounds='graphs with more types / fields; the E0072 judgement itself is rustc\'s (used only to confirm counterexamples)',
+        outside_bounds='graphs with more types / fields; dependence on process history is only sampled natively (two fixed schema pairs through one process); the E0072 judgement itself is rustc\'s (used only to confirm counterexamples)',
         engine=R.evidence(), cross_check=cross, exhaustive=False)
     vc.write_evidence(PROP, 'model_checking', coverage,
                       ['BTreeSet<&str> modelled as a finite set with string equality', 'a type needs indirection iff it lies on a cycle of non-list fields (reference model)',
@@ -104,6 +137,12 @@ def main():
 def replay(path):
     p = json.load(open(path))
     sc = vc.scratch(PROP + 'r')
+    if p.get('kind') == 'history':
+        import native
+        bad = history_independence(native.ReplayTool(sc))
+        for b in bad:
+            print(b[1])
+        return 1 if bad else 0
     err = consumer.Consumer(sc).build(p['schema'], p['query'], 'Q', 'q')
     print((err or 'compiles')[-800:])
     return 1 if err and 'E0072' in err else 0
